@@ -7,6 +7,7 @@ import (
 	"fmt"
 	"math/rand"
 	"os"
+	"strings"
 	"sync"
 
 	"verifharness/queuedrv"
@@ -33,6 +34,7 @@ func cmdQueue(args []string) int {
 	nest := fs.String("nest", "", "nested mutations, e.g. 1.1,2.1")
 	veto := fs.String("veto", "", "vetoed mutations, e.g. 2.1")
 	prep := fs.String("prep", "", "operations that are Eval (k odd) / CanAdd (k even), e.g. 1.1")
+	noop := fs.String("noop", "", "accepted no-op mutations (add of a non-Multi state that is already active), e.g. 1.1,2.2; n1.1 = the mutation nested by 1.1")
 	enum := fs.Bool("enum", false, "enumerate all schedules")
 	max := fs.Int("max", 100000, "max schedules for -enum")
 	random := fs.Int("random", 0, "number of random schedules")
@@ -63,7 +65,16 @@ func cmdQueue(args []string) int {
 		}
 		return r
 	}
-	sc := queuedrv.Scenario{Callers: *callers, MutsPer: *muts, Nest: parse(*nest), Veto: parse(*veto), Prep: parse(*prep)}
+	sc := queuedrv.Scenario{Callers: *callers, MutsPer: *muts, Nest: parse(*nest), Veto: parse(*veto), Prep: parse(*prep),
+		Noop: [][]int{}}
+	for _, it := range strings.Split(*noop, ",") {
+		var a, b int
+		if n, _ := fmt.Sscanf(it, "n%d.%d", &a, &b); n == 2 {
+			sc.Noop = append(sc.Noop, []int{a, b, 1})
+		} else if n, _ := fmt.Sscanf(it, "%d.%d", &a, &b); n == 2 {
+			sc.Noop = append(sc.Noop, []int{a, b})
+		}
+	}
 	if sc.Nest == nil {
 		sc.Nest = [][2]int{}
 	}
@@ -105,6 +116,9 @@ func cmdQueue(args []string) int {
 			}
 			if it.Scenario.Prep == nil {
 				it.Scenario.Prep = [][2]int{}
+			}
+			if it.Scenario.Noop == nil {
+				it.Scenario.Noop = [][]int{}
 			}
 			jobs = append(jobs, job{it.Scenario, it.Sched, it.Label})
 		}
@@ -165,7 +179,7 @@ func cmdQueue(args []string) int {
 				defer wg.Done()
 				defer func() { <-sem }()
 				lines := queuedrv.RunFree(sc.Callers, sc.MutsPer, *seed*1000+int64(i))
-				fsc := queuedrv.Scenario{Callers: sc.Callers, MutsPer: sc.MutsPer, Nest: [][2]int{}, Veto: [][2]int{}, Prep: [][2]int{}}
+				fsc := queuedrv.Scenario{Callers: sc.Callers, MutsPer: sc.MutsPer, Nest: [][2]int{}, Veto: [][2]int{}, Prep: [][2]int{}, Noop: [][]int{}}
 				write(fsc, fmt.Sprintf("free%d", i), lines, []int{i})
 			}(i)
 		}
